@@ -101,6 +101,34 @@ func genC04(p *sim.Plan, r *sim.Rand, tier string) {
 		}
 		p.Ops = append(p.Ops, op)
 	}
+	if p.Mode == "conc" && r.Bool(0.25) {
+		// Sockets that leave and come back (with the same ID, as a restored session does) while
+		// broadcasts to everybody and to rooms are at work, with the adapter's lock hand-overs stalled:
+		// every socket is reached once per broadcast.
+		p.Ops = nil
+		for s := 0; s < ns; s++ {
+			p.Ops = append(p.Ops, sim.Op{Kind: "join", Actor: 0, At: 0, I: []int64{int64(s), mask() | 1}})
+		}
+		t := int64(2_000_000)
+		for k := 0; k < r.Range(2, 5); k++ {
+			p.Ops = append(p.Ops, sim.Op{Kind: "bcast", Actor: 1 + k%2, At: t, I: []int64{[]int64{0, 0, mask()}[r.Intn(3)], 0}})
+			for j := 0; j < r.Range(1, 3); j++ {
+				s := int64(r.Intn(ns))
+				dt := r.I64n(300_000)
+				p.Ops = append(p.Ops, sim.Op{Kind: "disconnect", Actor: 3, At: t + dt, I: []int64{s}},
+					sim.Op{Kind: "join", Actor: 3, At: t + dt + r.I64n(200_000), I: []int64{s, mask() | 1}})
+			}
+			t += 3_000_000
+		}
+		p.Set("tasks_hint", 4)
+		p.Stall = DrawStall(r, 300_000_000)
+		p.Stall.Focus = []string{"adapter_memory.go"}
+		p.Stall.SitePct = 100
+		p.Stall.RatePPM = 300000
+		p.Stall.MinNs = 50_000
+		p.Stall.MaxNs = 1_000_000
+		at = t
+	}
 	p.Horizon = at + int64(2*time.Second)
 }
 
